@@ -289,7 +289,7 @@ func checkC10(c c10Case) (ci caseInfo, err error) {
 
 func genC10(t *rapid.T) c10Case {
 	c := c10Case{Variant: rapid.IntRange(0, 11).Draw(t, "variant")}
-	nm := newNamer(true, false)
+	nm := newNamer(false, false)
 	g := &treeGen{o: treeOpts{Vars: true, Ellipsis: true, MaxDepth: 4, MaxElems: 4, ASCIIMax: 4, VarPct: 45, NoDeep: true}, nm: nm}
 	// force a list root
 	root := &model.Node{Kind: model.L}
